@@ -256,6 +256,8 @@ from . import helpers, wiring, confpanics, c12
 
 from . import removals
 
+from . import mustcall
+
 OBLIGATIONS = [
     ('C16.O1', 'documented constraint <-> guard', 'fps != 0; 1 <= max_frames_behind < SPECTATOR_BUFFER_SIZE; catchup_speed >= 1; num_players != 0 with revalidation against the new value; '
      'handle range rules per player type; duplicate handle; every handle in 0..num_players registered; unconstrained setters store unconditionally.', o1),
@@ -269,4 +271,5 @@ OBLIGATIONS = [
     ('C16.H', 'helpers the rules above rely on', 'the bodies of the helpers named by this property\'s rules compute what the rules assume (get_cell, registry_counts); see rules/helpers.py', helpers.bundle('get_cell', 'registry_counts')),
     ('C16.W', 'configuration wiring', 'at every call site that passes a field read `x.B` for a parameter `A` the callee has no same-typed parameter `B`; in every struct literal no parameter `B` is stored in field `A` while a same-typed parameter `A` / field `B` exists (builder -> constructor -> endpoint fields: timeouts, window, fps are not crossed); see rules/wiring.py', wiring.rule),
     ('C16.R', 'who may remove', 'every call that takes elements out of a collection this property\'s rules rely on (keyed removal from a map, or bulk / positional removal) is one of the reviewed sites in tables/removals.json; a lookup turned into a removal, a second prune, a clear on another path is reported; see rules/removals.py', removals.rule_for('C16')),
+    ('C16.M', 'must-call floor', 'the calls listed for this property in tables/must_call.json are made on every path from the entry of their function to a normal return (interprocedural must-call): a new early return, fast path or extra condition in front of one of them is reported; see rules/mustcall.py', mustcall.rule_for('C16')),
 ]
